@@ -191,3 +191,58 @@ func c05Counters(c *fw.Ctx) {
 		}
 	}
 }
+
+// c05Windows: for ZREVRANGEBYSCORE the framework applies LIMIT to what the handler returned.
+// With and without WITHSCORES, the client receives exactly the offset/count window of the
+// handler's members (a member and its score travel together).
+func c05Windows(c *fw.Ctx) {
+	members := []string{"m1", "m2", "m3", "m4", "m5"}
+	for _, withScores := range []bool{false, true} {
+		for off := 0; off <= 6; off++ {
+			for cnt := -1; cnt <= 6; cnt++ {
+				if !c.Mine() {
+					continue
+				}
+				args := []string{"ZREVRANGEBYSCORE", "k", "+inf", "-inf"}
+				if withScores {
+					args = append(args, "WITHSCORES")
+				}
+				args = append(args, "LIMIT", fmt.Sprint(off), fmt.Sprint(cnt))
+				c.Eval()
+				c.Nontrivial()
+				r := runDouble(seq.Script{Input: grammar.Encode(args)}, func(s *redis.Server, d *srv.Double) {
+					d.Result = func(d *srv.Double, call srv.Call) (*redis.Message, error) {
+						// what a store returns for the ascending range; the framework reverses and limits it
+						var flat []string
+						for i, m := range members {
+							flat = append(flat, m)
+							if withScores {
+								flat = append(flat, fmt.Sprint(i+1))
+							}
+						}
+						return redis.NewStringArrayMessage(flat), nil
+					}
+				})
+				if cl, _ := crashClause(r.Out); cl != "" {
+					continue
+				}
+				want := resp.A()
+				n := 0
+				for i := len(members) - 1; i >= 0; i-- {
+					pos := len(members) - 1 - i
+					if pos < off || (cnt >= 0 && n >= cnt) {
+						continue
+					}
+					n++
+					want.Elems = append(want.Elems, resp.B(members[i]))
+					if withScores {
+						want.Elems = append(want.Elems, resp.B(fmt.Sprint(i+1)))
+					}
+				}
+				if len(r.Replies) != 1 || !r.Replies[0].Equal(want) {
+					c.Violation("C05|ZREVRANGEBYSCORE|window|reply-not-handler-result", fmt.Sprintf("%s over the handler's members %v (scores 1..5): the client received %s, the window is %s", argsString(args), members, valuesString(r.Replies), want), c05Case{Kind: "handler-error", Shape: "window"})
+				}
+			}
+		}
+	}
+}
